@@ -142,7 +142,20 @@ def gen_module(rng):
     return classes
 
 
-def module_text(classes):
+LOAD_TESTS = '''
+import unittest
+def load_tests(loader, tests, pattern):
+    suite = unittest.TestSuite()
+    for cls in (%s,):
+        inner = unittest.TestSuite()
+        for name in loader.getTestCaseNames(cls):
+            inner.addTest(cls(name))
+        suite.addTest(inner)
+    return suite
+'''
+
+
+def module_text(classes, hook=False):
     out = [MOD_HEADER]
     for n, base, ctag, ms in classes:
         if ctag:
@@ -154,6 +167,8 @@ def module_text(classes):
             if t:
                 out.append('    @tag')
             out.append('    def %s(self): _log(type(self).__name__ + %r)' % (m, '.' + m))
+    if hook:
+        out.append(LOAD_TESTS % ', '.join(c[0] for c in classes))
     out.append("if __name__ == '__main__':\n    ReferenceTestCase.main()\n")
     return '\n'.join(out)
 
@@ -172,6 +187,12 @@ def effective(classes):
 def oracle_run(classes, argv):
     """Property: executed tests and listed classes for an in-domain argv (+ optional -w tail)."""
     env = effective(classes)
+    pats = []
+    argv = list(argv)
+    while '-k' in argv:                      # unittest's -k PATTERN (substring of the test id unless it has a *)
+        i = argv.index('-k')
+        pats.append(argv[i + 1])
+        del argv[i:i + 2]
     stripped, tagged, check, _, _ = oracle_strip(argv)
     rest = stripped[1:]
     names = [a for a in rest if not a.startswith('-')]
@@ -181,9 +202,17 @@ def oracle_run(classes, argv):
     if idx and idx[-1] - idx[0] + 1 != len(idx):
         return None
 
+    import fnmatch
+
+    def selected(c, m):
+        if not pats:
+            return True
+        full = '__main__.%s.%s' % (c, m)
+        return any(fnmatch.fnmatchcase(full, p if '*' in p else '*%s*' % p) for p in pats)
+
     def tests(c):
         ct, ms = env[c]
-        return [m for m in sorted(ms) if (not (tagged or check)) or ct or ms[m]]
+        return [m for m in sorted(ms) if ((not (tagged or check)) or ct or ms[m]) and selected(c, m)]
     if check:
         return ([], [c for c in sel if tests(c)])
     return ([c + '.' + m for c in sel for m in tests(c)], [])
@@ -282,20 +311,42 @@ def run(ctx):
         classes = gen_module(rng)
         in_dom = rng.random() < 0.8
         argv, tail = gen_run_argv(rng, classes, in_dom)
-        jobs.append((classes, argv, tail, in_dom))
+        extra = None
+        r = rng.random()
+        if in_dom and r < 0.15:
+            # an ordinary unittest option that narrows the selection: -k PATTERN
+            argv = argv + ['-k', rng.choice(['test_a', 'test_b', '_1', 'TA', 'T*test_c', 'zzz'])]
+            tail = []
+            extra = 'k'
+        elif in_dom and r < 0.3 and not any(a in [c[0] for c in classes] for a in argv[1:]):
+            extra = 'hook'               # the module builds its own nested suites in load_tests
+            tail = []
+        jobs.append((classes, argv, tail, in_dom, extra))
     work = tempfile.mkdtemp(prefix='c19-', dir=_workdir())
     try:
         with ThreadPoolExecutor(16) as ex:
-            results = list(ex.map(lambda t: run_subprocess(work, t[0], module_text(t[1][0]),
+            results = list(ex.map(lambda t: run_subprocess(work, t[0], module_text(t[1][0], hook=t[1][4] == 'hook'),
                                                            t[1][1] + t[1][2]), enumerate(jobs)))
     finally:
         shutil.rmtree(work, ignore_errors=True)
     payloads = [([(n, ([b] if b else []), t, [(m, mt) for m, mt in ms]) for n, b, t, ms in classes],
-                 argv + tail) for classes, argv, tail, _ in jobs]
+                 argv + tail) for classes, argv, tail, _, _ in jobs]
     # base is option: enc of [b] gives ((codes)) as needed; [] gives ()
     mouts = ctx.model.call_many(2, payloads) if ctx.model_ok else [None] * len(jobs)
-    for (classes, argv, tail, in_dom), (cat, executed, listed, rc, err), mo in zip(jobs, results, mouts):
+    for (classes, argv, tail, in_dom, extra), (cat, executed, listed, rc, err), mo in zip(jobs, results, mouts):
         full = argv + tail
+        if extra:
+            ctx.bump('B.extra.' + extra)
+            if extra == 'hook':
+                listed = sorted(set(listed), key=listed.index)     # a hook module names each class once per suite level
+            if extra == 'k':
+                mo = None                                          # -k is outside the model: decided by the oracle
+            elif mo is not None and cat == 'ran':
+                executed = sorted(executed)
+                m0 = model_run_decode(mo)
+                mo = None
+                if (m0[0], sorted(m0[1]), m0[2]) != (cat, executed, listed):
+                    ctx.mismatch('B:run_module(load_tests)', {'classes': classes, 'argv': full}, repr(m0), repr((cat, executed, listed)))
         nontriv = any(t for _, _, t, _ in classes) or any(mt for c in classes for _, mt in c[3])
         ctx.count(('B', repr(classes), tuple(full)), nontriv)
         ctx.bump('B.' + cat)
@@ -310,6 +361,9 @@ def run(ctx):
             want = oracle_run(classes, argv)
             if want is None:
                 continue
+            if extra == 'hook':
+                want = (sorted(want[0]), want[1])
+                executed = sorted(executed)
             if cat != 'ran' or (executed, listed) != want:
                 ctx.fail({'layer': 'B', 'classes': classes, 'argv': full},
                          'module run with %r executed %r listed %r (%s, rc=%s); property requires '
